@@ -10,18 +10,24 @@ META = {
             'text per uri. Theorems: with open/change/close inline, for EVERY notification sequence and EVERY interleaving with the other '
             'spawned handlers, at quiescence the state is exactly the message-order result — every document holds the text of its last '
             'notification, a document closed last is closed (and gone from the analysis when not on disk); every schedule terminates; with '
-            'didOpen spawned (the table before the repair) a 2-task schedule ends on the stale didOpen text. Generated histories over '
+            'didOpen spawned (the table before the repair) a 2-task schedule ends on the stale didOpen text. The one other task that writes '
+            'document texts, a workspace reload, is covered by the reload LTS of C29/Model.v: its convergence theorem is instantiated with the '
+            '"sync_open_file bumps the open-documents version on every call" fact regenerated from the source (table obligation), so an edit '
+            'that lands between the reload snapshot and its re-index still wins. Generated histories over '
             'several documents (in/outside the workspace, on disk or not, rapid open/change/close/re-open) are run against the real server '
-            'and the final editor text, analysed text and documentSymbol per uri compared with the model.',
+            'and the final editor text, analysed text and documentSymbol per uri compared with the model; reload histories place the edits inside '
+            'the reload window deterministically by holding the reload\'s progress request back.',
     "note": 'Trusted: Coq kernel; the hand model of the three handlers (validated by trace validation, not proved equal to the Rust); the '
-            'syntactic translator; other tasks (requests, diagnostics, didSave, watched files, reload) are modelled as not writing document texts. '
+            'syntactic translators; requests, diagnostics, didSave and watched-files tasks are modelled as not writing document texts; the workspace '
+            'reload is modelled by C29/Model.v (imported, not re-proved here). '
             'Axioms: none.',
     "technique": "Coq proof (invariant over all schedules of an LTS, refutation witness for the spawned-didOpen table) + regenerated "
                  "sync/async notification table + trace validation against the real in-process server + oracle search",
 }
 
-THEOREMS = [("today_all_inline", "table"), ("inline_in_order", "theorem"), ("today_in_order", "theorem"),
-            ("schedules_terminate", "theorem"), ("spawned_open_refuted", "refutation"), ("inline_example", "example")]
+THEOREMS = [("today_all_inline", "table"), ("today_version_bumps", "table"), ("inline_in_order", "theorem"), ("today_in_order", "theorem"),
+            ("schedules_terminate", "theorem"), ("last_text_wins_across_reload", "theorem"),
+            ("spawned_open_refuted", "refutation"), ("bump_only_new_refuted", "refutation"), ("inline_example", "example")]
 
 TRUSTED = [
     "Coq 8.16.1 kernel (coqc); vm_compute only in the Example, the refutation witness, the table obligation and the trace-validation evaluation",
@@ -32,9 +38,11 @@ TRUSTED = [
     "(harness vh_ls/src/bin/c27.rs + coq/theories/C27/Corr.v)",
     "translator checks/ls_dispatch_common.py (regex reader of the dispatch_notification! sync:/async: lists and of the macro arms: "
     "sync = awaited inline, async = tokio::spawn); its output Gen/C27_Notify.v is what the theorems are checked against",
-    "modelling assumptions: uris are file uris; is_workspace_file, file existence and module membership are static during a history; tasks other "
-    "than the three document handlers (requests, diagnostics, didSave, watched-files, workspace reload) do not write document texts "
-    "(reload/watched-files are the subject of C29/C10); every handler step terminates (lock freedom is C28)",
+    "modelling assumptions: uris are file uris; is_workspace_file, file existence and module membership are static during a history; requests, "
+    "diagnostics, didSave and watched-files tasks do not write document texts; every handler step terminates (lock freedom is C28)",
+    "the workspace reload (snapshot / clear / re-index / version loop) interleaved with the handlers is the LTS coq/theories/C29/Model.v with "
+    "its proof C29/Proofs.v (another property's files, imported); the bump rule it is instantiated with comes from Gen/C27_Sync.v, regenerated "
+    "on every run with the reader lib/c29_c30_anchors.py",
     "hook (cfg-gated, absent from normal builds): verif_serve, verif/docState (editor text and analysed text per uri, answered inline)",
 ]
 
@@ -58,8 +66,9 @@ def case_terms(c):
         else:
             hist.append("NOther false 1%nat")
     obs = ["(%d, (%s, %s))" % (i, coq_opt(o["open"]), coq_opt(o["vfs"])) for i, o in enumerate(c["obs"])]
-    return "{| k_ws := %s; k_disk := %s; k_disk_txt := 0; k_init := %s; k_hist := %s; k_obs := %s |}" % (
-        coq_list([str(x) for x in ws]), coq_list([str(x) for x in disk]), coq_list(init), coq_list(hist), coq_list(obs))
+    reload = "true" if any(h[0] == "reload" for h in c["hist"]) else "false"
+    return "{| k_ws := %s; k_disk := %s; k_disk_txt := 0; k_init := %s; k_reload := %s; k_hist := %s; k_obs := %s |}" % (
+        coq_list([str(x) for x in ws]), coq_list([str(x) for x in disk]), coq_list(init), reload, coq_list(hist), coq_list(obs))
 
 
 PRELUDE = "Import ListNotations.\nLocal Open Scope N_scope.\nLocal Open Scope list_scope.\n"
@@ -79,7 +88,7 @@ def shape(c):
 
 
 def correspondence(ck, binpath, n, corpus):
-    args = ["corr", "--seed", ck.seed, "--n", n, "--dir", ck.work]
+    args = ["corr", "--seed", ck.seed, "--n", n, "--dir", ck.work, "--reloads", ck.scale(4, 40)]
     if corpus:
         args += ["--corpus", corpus]
     rc, out, err = ck.run_bin(binpath, args, timeout=1500)
@@ -116,7 +125,7 @@ def correspondence(ck, binpath, n, corpus):
 
 
 def search(ck, binpath, n, corpus):
-    args = ["search", "--seed", ck.seed, "--n", n, "--dir", ck.work]
+    args = ["search", "--seed", ck.seed, "--n", n, "--dir", ck.work, "--reloads", ck.scale(5, 60)]
     if corpus:
         args += ["--corpus", corpus]
     rc, out, err = ck.run_bin(binpath, args, timeout=3000)
@@ -156,7 +165,9 @@ def main(argv):
     table = None
     try:
         table = D.gen_c27()
-        ck.cov["table_obligations"] = ["sync (inline): %s" % table["sync"], "async (spawned): %s" % table["async"]]
+        sync = D.gen_c27_sync()
+        ck.cov["table_obligations"] = ["sync (inline): %s" % table["sync"], "async (spawned): %s" % table["async"],
+                                       "open-documents version: %s" % {k: sync[k] for k in ("sync_bumps_always", "close_bumps_always", "handler_sections_ok", "reload_sections_ok")}]
     except D.Anchor as ex:
         ck.tie_broken("translator anchor missing: %s" % ex, "checks/ls_dispatch_common.py could not regenerate Gen/C27_Notify.v")
     corpus = os.path.join(VERIF, "corpus", "C27", "witnesses.json")
@@ -167,7 +178,7 @@ def main(argv):
         ck.finish(trusted_base=TRUSTED)
     ok = ck.coq_make(["theories/C27/Props.vo", "theories/C27/Corr.vo"])
     if ok:
-        D.gate_files(ck, ["Base/LTS.v", "Gen/C27_Notify.v"])
+        D.gate_files(ck, ["Base/LTS.v", "Gen/C27_Notify.v", "Gen/C27_Sync.v", "C29/Model.v", "C29/Proofs.v"])
         ck.coq_gates(["C27"], THEOREMS, "EV.C27.Props")
     if bins:
         if ok or os.path.exists(os.path.join(COQ, "theories/C27/Corr.vo")):
@@ -177,10 +188,13 @@ def main(argv):
         search(ck, bins["c27"], ck.scale(150, 1800), corpus)
     ck.finish(
         trusted_base=TRUSTED,
-        rule="histories of 2-10 notifications sent without waiting to one real server over 1-3 fresh documents (in the workspace and not on "
+        rule="(a) histories of 2-10 notifications sent without waiting to one real server over 1-3 fresh documents (in the workspace and not on "
              "disk / on disk, outside the workspace on disk / not on disk): didOpen, didChange (full text, or empty contentChanges), didClose, "
              "re-open, plus didSave and $/setTrace in between; mostly protocol-conformant (open first), 10% not; after quiescence the editor text "
-             "and analysed text per uri (hook probe) and documentSymbol are read. Non-trivial = at least two effectful notifications about the "
+             "and analysed text per uri (hook probe) and documentSymbol are read; (b) reload histories: 1-2 documents are opened, a workspace "
+             "reload is triggered (.emmyrc.json changed event), the client holds the reload's work-done-progress request back — i.e. the reload "
+             "sits between its open-files snapshot and its re-index — while 1-3 more notifications arrive (mostly edits of ALREADY OPEN "
+             "documents, also close / re-open), then releases it (1 in 5 without the hold, as a pure race). Non-trivial = at least two effectful notifications about the "
              "same document; distinct by document kinds and the (operation, document) sequence",
         assumptions=["trace validation and search are sampled; the theorems carry the all-histories / all-schedules claim",
                      "quiescence on the real server is detected by two consecutive identical state probes 40 ms apart"])
